@@ -209,7 +209,7 @@ def hash_case(draw):
         "fa": draw(st.sampled_from(FLOATS)), "fb": draw(st.sampled_from(FLOATS)),
         "int_b": draw(st.booleans()),
         "payload_a": draw(st.integers(0, 2)), "payload_b": draw(st.integers(0, 2)),
-        "variant": draw(st.sampled_from(["independent", "deepcopy", "revalidate", "same_fields"])),  # revalidate = pydantic model_copy(deep=True)
+        "variant": draw(st.sampled_from(["independent", "deepcopy", "revalidate", "same_fields", "copy_update", "copy_update"])),  # revalidate = pydantic model_copy(deep=True)
     }
 
 
@@ -262,6 +262,21 @@ def check_hash(spec, ctx):
                 s2[k] = s2[k[:-2] + "_a"]
         s2["fb"] = s2["fa"]
         b = _make(s2, "b")
+    elif v == "copy_update":
+        # the source object is hashed (used in a set) first, then a copy with updated fields is derived from it;
+        # the copy must behave like a freshly built object with the same fields
+        hash(a)
+        {a}
+        fresh = _make(spec, "b")
+        fields = {k: getattr(fresh, k) for k in type(fresh).model_fields}
+        b = a.model_copy(update=fields)
+        if b == fresh:
+            if hash(b) != hash(fresh):
+                ctx.case(spec, nontrivial=True, labels=[spec["cls"], v, "equal"])
+                ctx.fail(f"{spec['cls']}: model_copy(update=...) of a hashed object equals a fresh object but hashes differently", spec, [hash(b), hash(fresh)], "equal hashes", kind="hash_law")
+            if fresh not in {b} or {b: 1}.get(fresh) != 1:
+                ctx.case(spec, nontrivial=True, labels=[spec["cls"], v, "equal"])
+                ctx.fail(f"{spec['cls']}: derived copy and fresh object are not interchangeable as set member / dict key", spec, None, None, kind="set_membership")
     else:
         b = _make(spec, "b")
     equal = a == b
